@@ -25,6 +25,8 @@
                    table state, i.e. at construction and after every SetPhaseOffset
      RoundTrip     Demodulate(Modulate(i)) = i
      ModulateLaw   i < M: the point of label i;  i >= M: ValueError, nothing is emitted
+     EarlierResultsUnchanged   a second Modulate call (Modulate2) leaves the result of the first, still held by
+                   the caller, as it was (frame law; a rejected second call changes nothing either)
      MLLaw         what Demodulate returned is THE nearest point by the definition
                    (for all q # p: dist(s, p) < dist(s, q)); 0 is returned only for genuine ties
      Lemmas        NeighbourLemma (small M), CompositionLaws of the error-rate forms derived from
@@ -36,7 +38,8 @@
      QamGrayIndexInverted     QAM applies the Gray index permutation the wrong way round: position
                               (R, C) carries g2b(R), g2b(C) - not Gray from M = 64 on
      QamAcceptsOne            QAM(1) is accepted (and emits a NaN symbol)
-     NoNormalisation, ModulateWraps, DetectRealOnly, GrayTwice, BerNotPerBit (C16: the bit error
+     NoNormalisation, ModulateWraps, DetectRealOnly, GrayTwice, ModulateReusesBuffer (modulate returns
+     a per-object output array that the next same-shape call overwrites), BerNotPerBit (C16: the bit error
      rate form without the division by the bits per symbol)
 
    Sample rows (stage R emission; `Emit` prints the samples and the nearest COORDINATE of each,
@@ -61,8 +64,10 @@ CONSTANTS Kind,     \* "QAM" | "PSK" | "BPSK"
 
 VARIABLES st,     \* "none" | "ok" | "rejected"
           g,      \* geometry of the constructed object (ConstellationOps.Geo), [kind |-> "none", m |-> requested] otherwise
-          tab, inv, scale, off, ret
-vars == <<st, g, tab, inv, scale, off, ret>>
+          tab, inv, scale, off, ret,
+          held    \* results of earlier Modulate calls the caller still holds: <<[i, then, now]>> (then = the point
+                  \* returned, now = what that returned object holds at present)
+vars == <<st, g, tab, inv, scale, off, ret, held>>
 
 M == g.m
 
@@ -129,7 +134,7 @@ Samples(r) ==
 (* -------------------------------------- machine --------------------------------------------- *)
 NoRet == [op |-> "none"]
 NoGeo(mm) == [kind |-> "none", m |-> mm]
-Init == st = "none" /\ g = NoGeo(0) /\ tab = <<>> /\ inv = <<>> /\ scale = ROne /\ off = 0 /\ ret = NoRet
+Init == st = "none" /\ g = NoGeo(0) /\ tab = <<>> /\ inv = <<>> /\ scale = ROne /\ off = 0 /\ ret = NoRet /\ held = <<>>
 
 Accepts(mm) == Supported(Kind, mm) \/ (Dev.QamAcceptsOne /\ Kind = "QAM" /\ mm = 1)
 Construct(mm) ==
@@ -138,7 +143,7 @@ Construct(mm) ==
        THEN LET gg == Geo(Kind, mm)  t == ConstructTab(gg) IN
             /\ st' = "ok" /\ g' = gg /\ tab' = t /\ inv' = InvTab(gg, t) /\ scale' = ScaleOf(gg, t)
        ELSE /\ st' = "rejected" /\ g' = NoGeo(mm) /\ UNCHANGED <<tab, inv, scale>>
-  /\ off' = 0
+  /\ off' = 0 /\ held' = <<>>
   /\ ret' = [op |-> "construct", out |-> IF Accepts(mm) THEN "ok" ELSE "raised"]
 ConstructAny == \E mm \in Cards : Construct(mm)
 
@@ -148,14 +153,28 @@ SetPhaseOffset(j) ==
   /\ TableState /\ Kind = "PSK" /\ j # off
   /\ off' = j /\ tab' = OffsetTab(g) /\ inv' = InvTab(g, OffsetTab(g)) /\ scale' = ScaleOf(g, OffsetTab(g))
   /\ ret' = [op |-> "setoff", out |-> "ok", j |-> j]
+  /\ held' = <<>>
   /\ UNCHANGED <<st, g>>
 
 ModIdx == IF M <= 64 THEN 0..(M + 2) ELSE {0, 1, M \div 2, M - 1, M, M + 1, 2 * M}
+ModRet(i) == [op |-> "mod", i |-> i,
+              out |-> IF i < M THEN "ok" ELSE IF Dev.ModulateWraps THEN "ok" ELSE "raised:ValueError",
+              pt  |-> IF i < M THEN tab[i + 1] ELSE IF Dev.ModulateWraps THEN tab[(i % M) + 1] ELSE <<>>]
 Modulate(i) ==
   /\ TableState
-  /\ ret' = [op |-> "mod", i |-> i,
-             out |-> IF i < M THEN "ok" ELSE IF Dev.ModulateWraps THEN "ok" ELSE "raised:ValueError",
-             pt  |-> IF i < M THEN tab[i + 1] ELSE IF Dev.ModulateWraps THEN tab[(i % M) + 1] ELSE <<>>]
+  /\ ret' = ModRet(i)
+  /\ held' = IF i < M THEN << [i |-> i, then |-> tab[i + 1], now |-> tab[i + 1]] >> ELSE <<>>
+  /\ UNCHANGED <<st, g, tab, inv, scale, off>>
+\* a SECOND modulate call (same shape) while the caller still holds the first result.  A rejected call
+\* (index >= M) leaves everything as it was; an accepted one must not touch the array handed out before.
+ModIdx2 == {0, 1, M - 1, M}
+Modulate2(j) ==
+  /\ st = "ok" /\ ret.op = "mod" /\ Len(held) = 1
+  /\ ret' = ModRet(j)
+  /\ held' = IF j < M
+              THEN << [held[1] EXCEPT !.now = IF Dev.ModulateReusesBuffer THEN tab[j + 1] ELSE @],
+                      [i |-> j, then |-> tab[j + 1], now |-> tab[j + 1]] >>
+              ELSE held
   /\ UNCHANGED <<st, g, tab, inv, scale, off>>
 
 \* what the demodulator computes for one sample: the position (0 = tie)
@@ -174,12 +193,13 @@ Demodulate(r) ==
          ps == [c \in DOMAIN ss |-> Detect(ss[c])]
      IN  ret' = [op |-> "demod", row |-> r, ss |-> ss, pos |-> ps,
                  idx |-> [c \in DOMAIN ss |-> IF ps[c] = 0 THEN -1 ELSE inv[ps[c]] - 1]]
-  /\ UNCHANGED <<st, g, tab, inv, scale, off>>
+  /\ UNCHANGED <<st, g, tab, inv, scale, off, held>>
 
 SetPhaseOffsetAny == TableState /\ \E j \in 1..NOff : SetPhaseOffset(j)
 ModulateAny   == TableState /\ \E i \in ModIdx : Modulate(i)
+Modulate2Any  == st = "ok" /\ ret.op = "mod" /\ \E j \in ModIdx2 : Modulate2(j)
 DemodulateAny == TableState /\ \E r \in RowIds : Demodulate(r)
-Next == ConstructAny \/ SetPhaseOffsetAny \/ ModulateAny \/ DemodulateAny
+Next == ConstructAny \/ SetPhaseOffsetAny \/ ModulateAny \/ Modulate2Any \/ DemodulateAny
 
 (* ------------------------------------- properties ------------------------------------------- *)
 Rejects == st # "none" => ((st = "rejected") <=> ~Supported(Kind, g.m))
@@ -200,6 +220,12 @@ RoundTrip == TableState =>
 ModulateLaw == (st = "ok" /\ ret.op = "mod") =>
   IF ret.i < M THEN ret.out = "ok" /\ ret.pt = tab[ret.i + 1]
   ELSE ret.out = "raised:ValueError" /\ ret.pt = <<>>
+
+\* frame law (results stay results): what was handed out by an earlier call still holds the points it held when
+\* it was returned, so demodulating it still gives the indexes it was made from
+EarlierResultsUnchanged ==
+  \A h \in DOMAIN held : /\ held[h].now = held[h].then
+                          /\ inv[PosOf(g, held[h].now)] - 1 = held[h].i
 
 \* (every sample for M <= 16; every fourth row above - the fold is the same operator for all rows)
 MLLaw == (st = "ok" /\ ret.op = "demod" /\ (M <= 16 \/ ret.row % 4 = 1)) =>
